@@ -18,7 +18,9 @@ RULE = ("A case is (up to 4 hosts, each good or of one bad-reply class: random b
 ASSUMPTIONS = [
     "an exception escaping datagram_received does not close a datagram transport (CPython 3.12 selector_events); the "
     "simulated endpoint behaves the same way",
-    "copies are never scheduled within 0.1 s of the end of the listening window (no ties with transport.close())",
+    "a reply counts as delivered when the simulated endpoint handed it to the protocol before transport.close(); "
+    "copies may be scheduled exactly at the end of the window - whichever side they land on is accepted, but a "
+    "delivered good reply must be reported",
     "all copies of one host belong to one class",
 ]
 COMPONENTS = {"real": REAL_BASE + ["Discover.discover, _DiscoverProtocol.datagram_received de-duplication, task gathering, "
@@ -26,7 +28,10 @@ COMPONENTS = {"real": REAL_BASE + ["Discover.discover, _DiscoverProtocol.datagra
               "stub": STUB_BASE + ["UDP segment and responding hosts"]}
 
 BAD = ["random", "short_body", "nontext_body", "no_separators", "nonhex_type", "xml_no_device", "xml_no_attrs",
-       "xml_bad_port", "xml_closed_port", "empty", "marker_only_v2", "marker_only_v3", "bad_cipher_len"]
+       "xml_bad_port", "xml_closed_port", "empty", "marker_only_v2", "marker_only_v3", "bad_cipher_len",
+       # not a Midea reply at all
+       "xml_nul_padded", "xml_trailing_garbage", "xml_leading_space", "xml_bom", "ssdp_text", "json_text", "html_text",
+       "zero_length", "one_byte_marker", "xml_entity", "v3_header_only", "huge"]
 
 
 def bad_reply(kind, h, seed):
@@ -35,6 +40,30 @@ def bad_reply(kind, h, seed):
     v3 = h["version"] == 3
     if kind == "random":
         return rb[:1 + seed % 200]
+    if kind == "xml_nul_padded":
+        return b'<a><body><device port="6444"/></body></a>' + bytes(1 + seed % 5)
+    if kind == "xml_trailing_garbage":
+        return b'<a><body><device port="6444"/></body></a>' + rb[:3]
+    if kind == "xml_leading_space":
+        return b'  \r\n<a><body><device port="x"/></body></a>'
+    if kind == "xml_bom":
+        return b"\xef\xbb\xbf<a><body><device/></body></a>"
+    if kind == "ssdp_text":
+        return b"HTTP/1.1 200 OK\r\nCACHE-CONTROL: max-age=1800\r\nST: upnp:rootdevice\r\n\r\n"
+    if kind == "json_text":
+        return b'{"device": {"port": 6444, "id": 1}}'
+    if kind == "html_text":
+        return b"<html><body><device port=6444></body></html>"
+    if kind == "zero_length":
+        return b""
+    if kind == "one_byte_marker":
+        return bytes([0x5A if seed % 2 else 0x83])
+    if kind == "xml_entity":
+        return b'<!DOCTYPE a [<!ENTITY e "x">]><a><body><device port="&e;"/></body></a>'
+    if kind == "v3_header_only":
+        return b"\x83\x70\x00\x00\x20\x0f\x00\x00"
+    if kind == "huge":
+        return (b"\x5a\x5a" + rb) * 20
     if kind == "empty":
         return b"\x00"
     if kind == "marker_only_v2":
@@ -81,7 +110,7 @@ def run(plan):
         replies = []
         for (t, src_port) in h["copies"]:
             replies.append((t, src_port, data))
-            if t < 5.0:
+            if t <= 5.0:
                 delivered += 1
                 if h["cls"] == "good":
                     good_in_window.add(h["ip"])
@@ -103,6 +132,13 @@ def run(plan):
         if len(ips) != len(set(ips)):
             res.fail("more than one device reported for one address", repr(ips))
             return
+        # a reply counts when it was actually handed to the protocol before the listening socket was closed
+        # (copies scheduled at exactly the end of the window may land on either side)
+        good_ips = {h["ip"] for h in plan["hosts"] if h["cls"] == "good"}
+        good_in_window.clear()
+        for (_t, _data, addr) in w.net.endpoints[0].received:
+            if addr[0] in good_ips:
+                good_in_window.add(addr[0])
         if set(ips) != good_in_window:
             missing = good_in_window - set(ips)
             extra = set(ips) - good_in_window
@@ -194,6 +230,9 @@ def space(tier):
             # distinct times per run so that the arrival order is the drawn one
             for c in h["copies"]:
                 c[0] += rng.randrange(0, 64) / 65536
+            if rng.random() < 0.15:
+                # a copy landing exactly when the listening window ends, or one tick to either side
+                h["copies"].append([5.0 + rng.choice([-1, 0, 0, 1]) / (1 << 20), 6445])
         return {"hosts": hosts, "twice": rng.random() < 0.3}
     sp.add("random", 14000 if tier == "quick" else 400_000, rnd)
 
